@@ -339,7 +339,19 @@ impl StorageEngine {
                 let expiry = stored_value.metadata.expires_at.map(|at| {
                     std::time::SystemTime::now() + at.saturating_duration_since(Instant::now())
                 });
-                Ok(Some((stored_value.value.clone(), expiry)))
+                // Cloning a sorted set only clones the Arc: the caller would keep seeing later
+                // writes. A snapshot needs its own copy.
+                let value = match &stored_value.value {
+                    Value::SortedSet(shared) => {
+                        let copy = SkipList::new();
+                        for (member, score) in shared.get_all_items() {
+                            copy.insert(member, score);
+                        }
+                        Value::SortedSet(Arc::new(copy))
+                    }
+                    other => other.clone(),
+                };
+                Ok(Some((value, expiry)))
             }
             _ => Ok(None),
         }
